@@ -45,6 +45,16 @@ CLAIMED = {
         note="Pointwise-ness of each compiled solver is the hypothesis (searched: grid == shuffled explicit points == subset == crop, bit-for-bit except the lens theories at 1e-9); np.random.choice distinctness/reproducibility and input immutability are search-only.",
         technique="Lean 4 theorems (list/index lemmas) + exact correspondence + metamorphic search on real solvers",
         ref="DESIGN.md §5 C07"),
+    "C04": dict(
+        text="Proof (Lean 4, reals): multiplying every length by l != 0 divides the wavevector by l and leaves the hand-off vector k*(detector - particle), the size parameter k*r and the phase k*z unchanged; hence calcField / calcHolo / calcIntensity are unchanged for ANY solver that is a function of the (spherical or cylindrical) dimensionless positions it is handed; the cross-section prefactor 2*pi/k^2 is multiplied by l^2; (n, n_m, L) -> (n/n_m, 1, L/n_m) leaves k and the index ratio unchanged; for the T-matrix wrapper the ratios it passes on are invariant and the -2*pi*i/lambda postfactor compensates a degree-1 homogeneous amplitude. Tied by correspondence: hand-off positions and wavevector recorded from the real glue on scaled inputs vs the Lean model.",
+        note="Each solver being a function of its dimensionless arguments, and the homogeneity of the Fortran T-matrix amplitude, are hypotheses searched on the real solvers over factors 2^k (k in [-13,13], exact) and 10^u (u in [-4,4]); doubles are not reals (l*x - l*c vs l*(x-c)).",
+        technique="Lean 4 theorems (field_simp) over the parametrised forward model + correspondence on scaled inputs + metamorphic search over 8 decades",
+        ref="DESIGN.md §5 C04"),
+    "C05": dict(
+        text="Proof (Lean 4, reals): an in-plane shift of scatterer and detector leaves every hand-off position and therefore the field unchanged; rotating both about the optical axis rotates the hand-off vector and advances the azimuth of the (translated) Cartesian->spherical conversion by the angle; on the Fortran projections translated from mieangfuncs.f90 the sphere's per-point field is covariant for EVERY angle and polarisation (x,y rotate, z fixed) and the hologram pixel is invariant when field and reference rotate together; mirror relations (phi -> -phi, pi - phi) give a hologram symmetric about both in-plane axes for x- or y-polarised light; the MieLens per-point model (azimuth relative to the polarisation) is rotation-covariant and linear in the polarisation for every angle, with a kernel-checked counterexample for the pre-repair sign; the Lens integrand depends on azimuths only through differences and its (l,r)->(x,y) map commutes with rotating the polarisation. Tied: translator (Math, Proj) + correspondence of MieLens.raw_fields from its radial integrals and of Lens.raw_fields from its quadrature nodes and S-matrix values.",
+        note="Lens at angles off its azimuthal quadrature grid is covariant only up to quadrature error (searched with a converged quadrature); covariance of the compiled Multisphere and T-matrix solvers is search-only; S1,S2 independent of azimuth is an assumption about the Fortran series routines.",
+        technique="Lean 4 theorems over definitions regenerated from Fortran/Python + differential correspondence + metamorphic search (generic angles, all theories, above/below focus)",
+        ref="DESIGN.md §5 C05"),
 }
 
 NOT_YET = {}
